@@ -128,12 +128,36 @@ def run(ctx):
         f = facts.fn(HI + "::printer_standard")
         eb = ExprBuilder(f)
         ss = [c for c in f.calls() if c.path.endswith("StandardBuilder::separator_search")]
-        t1 = cond_switches(f, lambda e: e.k == "bin" and e[1] == "Eq" and mentions_field(e, HI, "threads")
-                           and any(y.k == "const" and y[1] == 1 for y in (e[2], e[3])), eb)
-        if len(ss) == 1 and t1 and not guarded(f, [ss[0].bb], t1, True) and mentions_field(eb.operand(ss[0].args[1]), HI, "file_separator"):
+        # value table over self.threads ∈ {1, 4} with file_separator = Some(..): what the printer ends up with is the value
+        # handed to separator_search, or the builder's default when it is not called
+        from ..flow import Sccp as _S2, combinator_model as _cm2
+        from .. import wire as _W
+        dflt = _W.struct_default(facts, "grep_printer::standard::Config", "separator_search")
+        eff = {}
+        for th in (1, 4):
+            seen = []
+
+            def fm(owner, name, th=th):
+                if owner == HI and name == "threads":
+                    return I(th)
+                if owner == HI and name == "file_separator":
+                    return V("Some", I(99))
+                return None
+
+            def inner(call, argv, seen=seen):
+                if call.path.endswith("StandardBuilder::separator_search"):
+                    seen.append(argv[1] if len(argv) > 1 else None)
+                if call.path.endswith("Clone::clone") and argv and argv[0] is not None:
+                    return argv[0]
+                return None
+            _S2(f, call_model=_cm2(facts, inner, field_model=fm), field_model=fm).run([(0, {})])
+            eff[th] = seen[-1] if seen else dflt
+        none_ = lambda v: v is not None and v[0] == "v" and v[1] == "None"
+        if ss and eff[1] == V("Some", I(99)) and none_(eff[4]):
             r.ok("printer", "separator_search(file_separator) only when threads == 1", fn=f)
         else:
-            r.bad("printer", "the standard printer emits file separators also when the buffer writer does (threads ≠ 1)", fn=f,
+            r.bad("printer", "the standard printer emits file separators also when the buffer writer does (threads ≠ 1)"
+                  if not none_(eff[4]) else "the single-threaded standard printer is not given the file separator", fn=f,
                   construct="separator")
         g = facts.fn(HI + "::buffer_writer")
         ebg = ExprBuilder(g)
